@@ -49,7 +49,7 @@ func meta(prop, level, technique, rule string, quick, thorough int, required []s
 
 func init() {
 	seqTech := "deterministic simulation: seeded single-client operation sequences on the simulated disk under the cooperative scheduler; "
-	meta("C01", "exploration", seqTech+"reference-map oracle after every step",
+	meta("C01", "exploration", seqTech+"reference-map oracle after every step; in a quarter of the runs the process may die between two operations (also inside a batch) and the history continues on the recovered database",
 		NontrivialRuleText["C01"], 16000, 400000,
 		[]string{"rotations", "writes_spanning_blocks", "writes_ending_near_boundary", "oversized_writes", "overwrites", "deletes_present", "batches", "merges", "restarts_after_merge"})
 	meta("C02", "exploration", seqTech+"restart as a generated step with an independently drawn reader configuration; dump before Close == dump after Open",
@@ -93,10 +93,10 @@ func init() {
 		NontrivialRuleText["C06"], 10000, 300000,
 		[]string{"merges", "restarts_after_merge", "adoptions_checked", "adoptions_fewer_files", "merge_dir_gone", "merge_errors", "merge_error_ErrInjected", "merge_error_ErrNoEnoughSpaceForMerge", "conc_merges"},
 		"I/O errors are injected only inside the merge side directory (the statement defines Merge's behaviour under an error; nothing defines the main data path's)")
-	meta("C10", "exploration", seqTech+"frozen sorted-slice cursor model for iterator sessions",
+	meta("C10", "exploration", seqTech+"frozen sorted-slice cursor model for iterator sessions; Fold call-backs that overwrite and delete keys during the scan; 30% of the runs: iterators and Fold next to concurrent writers, snapshot isolation decided per key with porcupine",
 		NontrivialRuleText["C10"], 30000, 700000,
 		[]string{"iter_sessions_multi", "iter_seeks", "iter_rewinds", "iter_nexts", "iter_interleaved_writes", "lists", "folds"})
-	meta("C13", "exploration", seqTech+"unsynced-bytes invariants of the journalled disk model evaluated at every return; a fifth of the runs: 2..4 concurrent callers under the seeded scheduler, the policy judged per call on the journal (own writes flushed at return; unflushed bytes of returned calls below the threshold; Sync() covers what was written before its call)",
+	meta("C13", "exploration", seqTech+"unsynced-bytes invariants of the journalled disk model evaluated at every return; a fifth of the runs: 2..4 concurrent callers under the seeded scheduler, the policy judged per call on the journal (own writes flushed at return; unflushed bytes of returned calls below the threshold; Sync() covers what was written before its call); 30% of the sequential runs: the process dies between two operations and the policy is judged in the process that recovered the unclosed log",
 		NontrivialRuleText["C13"], 20000, 500000,
 		[]string{"always_checks", "threshold_checks", "sync_batch_checks", "all_synced_checks", "rotations_checked", "cc_syncs", "cc_batches"},
 		"for mmap files 'flushed' means covered by an msync issued after the store; msync makes the whole mapping durable")
@@ -108,7 +108,7 @@ func init() {
 		NontrivialRuleText["C15"], 25000, 350000,
 		[]string{"puts", "batch_repeat_key", "gets", "dumps"},
 		"pool-mediated aliasing is made reproducible by the deterministic LIFO replacement of sync.Pool")
-	meta("C17", "exploration", seqTech+"Stat recomputed at every step by scanning the files with the package's own reader; 15% of the runs: concurrent clients (puts, deletes, batches, a merge), Stat recomputed at quiescence and after the restart",
+	meta("C17", "exploration", seqTech+"Stat recomputed at every step by scanning the files with the package's own reader; 15% of the runs: concurrent clients (puts, deletes, batches, a merge), Stat recomputed at quiescence and after the restart; 40% of the sequential runs: the process dies between two operations or inside a batch, Stat recomputed after the recovery",
 		NontrivialRuleText["C17"], 8000, 100000,
 		[]string{"stat_checks", "batches", "merges", "restarts", "oversized_files_ok", "rotations", "sched_switches"})
 	meta("C18", "exploration", seqTech+"hint entries decoded and compared with a scan of the merged files; hint-path Open vs scan-path Open; a fifth of the runs: the merge races concurrent writers",
